@@ -6,9 +6,38 @@ Import ListNotations.
 Local Open Scope string_scope.
 Local Open Scope list_scope.
 
-(* the untranscribed decoders accept (the generators only produce dictionaries
-   and transaction descriptions that tongo accepts) *)
-Definition accept_all : oracle := mkoracle (fun _ _ => true) (fun _ => true).
+(* The decoders that are not transcribed.  Dictionary acceptance (extra
+   currencies, StateInit.library) is tongo's own Hashmap.UnmarshalTLB (C05's
+   subject): the Go generator runs it on every cell of the case's DAG and hands
+   the answers over as two bit tables; out_msgs and TransactionDescr are only
+   exercised on real transactions, which tongo accepts. *)
+Fixpoint cell_eqb (a b : cell) {struct a} : bool :=
+  match a, b with
+  | Cell s1 t1 m1 d1 r1, Cell s2 t2 m2 d2 r2 =>
+      Bool.eqb s1 s2 && N.eqb t1 t2 && N.eqb m1 m2
+      && Nat.eqb (List.length d1) (List.length d2) && forallb (fun p => Bool.eqb (fst p) (snd p)) (combine d1 d2)
+      && (fix go (l1 l2 : list cell) : bool :=
+            match l1, l2 with
+            | [], [] => true
+            | x :: xs, y :: ys => cell_eqb x y && go xs ys
+            | _, _ => false
+            end) r1 r2
+  end.
+
+Fixpoint table_lookup (trees : list (res cell)) (tab : bits) (c : cell) : bool :=
+  match trees, tab with
+  | Ok t :: ts, b :: bs => if cell_eqb t c then b else table_lookup ts bs c
+  | _ :: ts, _ :: bs => table_lookup ts bs c
+  | _, _ => false
+  end.
+
+Definition table_oracle (trees : list (res cell)) (t0 t1 : bits) : oracle :=
+  mkoracle (fun kind c => match kind with
+                          | O => table_lookup trees t0 c
+                          | S O => table_lookup trees t1 c
+                          | _ => true
+                          end)
+           (fun _ => true).
 
 Definition info_kind (i : info) : N :=
   match i with IInt _ _ _ _ _ _ _ _ _ _ _ => 0 | IExtIn _ _ _ => 1 | IExtOut _ _ _ _ => 2 end%N.
@@ -29,14 +58,15 @@ Definition msg_sx (m : msg) : sx :=
       addr_sx (info_src (m_info m));
       addr_sx (info_dest (m_info m))].
 
-Definition with_root (a : sx) (f : list node -> nat -> cell -> list (res imm) -> sx) : sx :=
+Definition with_root (a : sx) (f : oracle -> list node -> nat -> cell -> list (res imm) -> sx) : sx :=
   match a with
-  | SL [SL dag; SN root] =>
+  | SL [SL dag; SN root; SBits t0; SBits t1] =>
       match nodes_of_sx dag with
       | Some cells =>
           let k := N.to_nat root in
-          match nth_error (trees_of 0 cells) k with
-          | Some (Ok c) => f cells k c (eval_dag sha256 0 cells)
+          let trees := trees_of 0 cells in
+          match nth_error trees k with
+          | Some (Ok c) => f (table_oracle trees t0 t1) cells k c (eval_dag sha256 0 cells)
           | _ => sx_err "root"
           end
       | None => sx_err "dag"
@@ -44,10 +74,10 @@ Definition with_root (a : sx) (f : list node -> nat -> cell -> list (res imm) ->
   | _ => sx_err "shape"
   end.
 
-(* c16.msg: (dag root) -> 'err | (kind hash normhash init bodyref bodybits nbodyrefs src dest) *)
+(* c16.msg: (dag root tab0 tab1) -> 'err | (kind hash normhash init bodyref bodybits nbodyrefs src dest) *)
 Definition run_msg (a : sx) : sx :=
-  with_root a (fun cells k c imms =>
-    sx_res msg_sx (decode_message_gen accept_all (cached_hash_of imms k) c)).
+  with_root a (fun o cells k c imms =>
+    sx_res msg_sx (decode_message_gen o (cached_hash_of imms k) c)).
 
 (* SourceBoc parses back to exactly one root whose hash is [h] *)
 Definition parses_back (h : bytes) (out : bytes) : bool :=
@@ -63,10 +93,10 @@ Definition parses_back (h : bytes) (out : bytes) : bool :=
   | _ => false
   end.
 
-(* c16.tx: (dag root) -> 'err | (hash (in-msg hash normhash)? sourceboc parses-back) *)
+(* c16.tx: (dag root tab0 tab1) -> 'err | (hash (in-msg hash normhash)? sourceboc parses-back) *)
 Definition run_tx (a : sx) : sx :=
-  with_root a (fun cells k c imms =>
-    match decode_tx_gen accept_all (cached_hash_of imms k) (hash_cell sha256) c with
+  with_root a (fun o cells k c imms =>
+    match decode_tx_gen o (cached_hash_of imms k) (hash_cell sha256) c with
     | Ok t =>
         let hs := map (fun ri => do c <- ri; cell_hash c) imms in
         SL [SBytes (tx_hash t);
